@@ -115,4 +115,109 @@ theorem foldl_writeS_sim (m : Nat) (f : Bytes → Bytes) (chunks : List Bytes) :
     rw [h.1, h.2] at this
     exact this
 
+/-! ### `flush` in the op alphabet; call transducers -/
+
+theorem sinkContent_append (a b : List (Option Bytes)) : sinkContent (a ++ b) = sinkContent a ++ sinkContent b := by
+  induction a with
+  | nil => simp [sinkContent]
+  | cons x xs ih => cases x <;> simp [sinkContent, ih, List.append_assoc]
+
+theorem sinkFlushes_append (a b : List (Option Bytes)) : sinkFlushes (a ++ b) = sinkFlushes a + sinkFlushes b := by
+  induction a with
+  | nil => simp [sinkFlushes]
+  | cons x xs ih => cases x <;> simp [sinkFlushes, ih] <;> omega
+
+/-- the model's "content of a `Vec` after these calls" and the specification's "input of these calls" are the same
+function of a call sequence (defined twice on purpose: one belongs to the model, one to the property) -/
+theorem sinkContent_eq_writtenBytes (ops : List (Option Bytes)) : sinkContent ops = writtenBytes ops := by
+  induction ops with
+  | nil => rfl
+  | cons x xs ih => cases x <;> simp [sinkContent, writtenBytes, ih]
+
+/-- forget the call structure: the `St` a traced mapped writer stands for -/
+def absT (s : StT) : St := ⟨s.buf, sinkContent s.calls⟩
+
+theorem stepByteT_sim (m : Nat) (f : Bytes → Bytes) (s : StT) (b : Nat) :
+    absT (stepByteT m f s b) = stepByte m f (absT s) b := by
+  unfold stepByteT stepByte absT
+  by_cases hb : b = m <;> simp [hb, sinkContent_append, sinkContent]
+
+theorem writeT_sim (m : Nat) (f : Bytes → Bytes) (chunk : Bytes) : ∀ (s : StT),
+    absT (chunk.foldl (stepByteT m f) s) = write m f (absT s) chunk := by
+  induction chunk with
+  | nil => intro s; simp [write]
+  | cons b bs ih =>
+    intro s
+    simp only [List.foldl_cons, write]
+    rw [ih, stepByteT_sim]
+    rfl
+
+/-- a flush changes neither the pending buffer nor the bytes handed to the inner writer: after any interleaving of
+writes and flushes the mapped writer is in the state one `write` of the whole input leaves it in -/
+theorem foldl_callT_sim (m : Nat) (f : Bytes → Bytes) (ops : List (Option Bytes)) : ∀ (s : StT),
+    absT (ops.foldl (callT m f) s) = write m f (absT s) (writtenBytes ops) := by
+  induction ops with
+  | nil => intro s; simp [writtenBytes, write]
+  | cons op rest ih =>
+    intro s
+    cases op with
+    | none =>
+      simp only [List.foldl_cons, writtenBytes]
+      rw [ih]
+      congr 1
+      simp [callT, absT, sinkContent_append, sinkContent]
+    | some c =>
+      simp only [List.foldl_cons, writtenBytes]
+      rw [ih, write_append]
+      congr 1
+      exact writeT_sim m f c s
+
+theorem sinkContent_dropT (f : Bytes → Bytes) (s : StT) : sinkContent (dropT f s) = finish f (absT s) := by
+  unfold dropT finish absT
+  by_cases h : s.buf.isEmpty <;> simp [h, sinkContent_append, sinkContent]
+
+theorem mappedCalls_content (m : Nat) (f : Bytes → Bytes) (ops : List (Option Bytes)) :
+    sinkContent (mappedCalls m f ops) = mappedOutput m f (writtenBytes ops) := by
+  unfold mappedCalls
+  rw [sinkContent_dropT, foldl_callT_sim, finish_write]
+  simp only [absT, sinkContent, List.nil_append, prependBuf_nil]
+  rfl
+
+theorem stepByteT_flushes (m : Nat) (f : Bytes → Bytes) (s : StT) (b : Nat) :
+    sinkFlushes (stepByteT m f s b).calls = sinkFlushes s.calls := by
+  unfold stepByteT
+  by_cases hb : b = m <;> simp [hb, sinkFlushes_append, sinkFlushes]
+
+theorem writeT_flushes (m : Nat) (f : Bytes → Bytes) (chunk : Bytes) : ∀ (s : StT),
+    sinkFlushes (chunk.foldl (stepByteT m f) s).calls = sinkFlushes s.calls := by
+  induction chunk with
+  | nil => intro s; rfl
+  | cons b bs ih => intro s; simp only [List.foldl_cons]; rw [ih, stepByteT_flushes]
+
+theorem foldl_callT_flushes (m : Nat) (f : Bytes → Bytes) (ops : List (Option Bytes)) : ∀ (s : StT),
+    sinkFlushes (ops.foldl (callT m f) s).calls = sinkFlushes s.calls + sinkFlushes ops := by
+  induction ops with
+  | nil => intro s; simp [sinkFlushes]
+  | cons op rest ih =>
+    intro s
+    cases op with
+    | none => simp only [List.foldl_cons]; rw [ih]; simp [callT, sinkFlushes_append, sinkFlushes]; omega
+    | some c => simp only [List.foldl_cons]; rw [ih]; simp only [callT, sinkFlushes]; rw [writeT_flushes]
+
+theorem mappedCalls_flushes (m : Nat) (f : Bytes → Bytes) (ops : List (Option Bytes)) :
+    sinkFlushes (mappedCalls m f ops) = sinkFlushes ops := by
+  unfold mappedCalls dropT
+  split <;> simp [foldl_callT_flushes, sinkFlushes_append, sinkFlushes]
+
+/-- a short-writing / interrupted target ends up with the same bytes as a `Vec` -/
+theorem sinkRunS_content (calls : List (Option Bytes)) : ∀ (script : List Nat) (got : Bytes),
+    sinkRunS script got calls = got ++ sinkContent calls := by
+  induction calls with
+  | nil => intro script got; simp [sinkRunS, sinkContent]
+  | cons c rest ih =>
+    intro script got
+    cases c with
+    | none => simp [sinkRunS, sinkContent, ih]
+    | some bytes => simp [sinkRunS, sinkContent, ih, writeAll_content, List.append_assoc]
+
 end CnbVerif.MW
